@@ -6,6 +6,7 @@ import InfluxQL.Lemmas.StmtPieces
 import InfluxQL.Lemmas.StmtExprPieces
 import InfluxQL.Lemmas.SelectPieces
 import InfluxQL.Lemmas.SelectClauses
+import InfluxQL.Lemmas.SelectBody
 import InfluxQL.Lemmas.IntLit
 import InfluxQL.Lemmas.RegexRoundTrip
 import InfluxQL.Lemmas.NumberRoundTrip
@@ -2548,6 +2549,129 @@ end
 
 example : (match (runHandler 204 .parseSelectStatement_targetNotRequired).run (PState.init exClausesText [] []) with
     | .ok (.select st, _) => st.print == tx "SELECT" ++ exClausesText
+    | _ => false) = true := by decide +kernel
+
+/-! ### the frame property of `parseSelectStatement` -/
+
+/-- **No step of `parseSelectStatement` changes the bound parameters or the lower-casing table** (subqueries to
+any depth, any fuel, any input): whenever it returns, `PState.params` and `PState.lowerTbl` are those of the
+start state. Proved once for the whole parser by the closure rules of `Frame` (`Lemmas/SelectFrame.lean`:
+`pscanWith`, `unscan`, `peekRune`, `get` are the only primitives that touch the state); this is what carries
+`lowerStr tbl "fill" = "fill"` / `RT.wOK tbl e` from the start state to the GROUP BY and fill() clauses. -/
+theorem parseSelect_same_env (fuel : Nat) (tr : Bool) (s s' : PState) (st : SelectStmt)
+    (h : (parseSelect fuel tr).run s = .ok (st, s')) : s'.params = s.params ∧ s'.lowerTbl = s.lowerTbl :=
+  (parseSelect_frame fuel tr).run h
+
+/-! ### SELECT over the wide class: calls, numbers, durations, wildcards; `GROUP BY time(…)`, `*`; `fill(…)` -/
+
+/-- The statements `selectWide_print_parse_partial` covers (decidable, relative to the lower-casing table `tbl`
+of the input): the clauses of `BodyOKW` and qualified measurements with a name as sources. -/
+def WideSelect (tbl : List (Char × Char)) (f : Field) (fs : List Field) (tgt : Option (Str × Str × Str))
+    (q : Str × Str × Str) (qs : List (Str × Str × Str)) (c : Option Expr) (ds : List Expr) (fill : FillOption)
+    (fv : FillValue) (sf : List SortField) (l o sl so : Int) (loc : Option Str) : Prop :=
+  BodyOKW tbl f fs tgt c ds fill fv sf l o sl so loc ∧ ∀ m ∈ q :: qs, QualOK m
+
+instance (tbl : List (Char × Char)) (f : Field) (fs : List Field) (tgt : Option (Str × Str × Str))
+    (q : Str × Str × Str) (qs : List (Str × Str × Str)) (c : Option Expr) (ds : List Expr) (fill : FillOption)
+    (fv : FillValue) (sf : List SortField) (l o sl so : Int) (loc : Option Str) :
+    Decidable (WideSelect tbl f fs tgt q qs c ds fill fv sf l o sl so loc) := by
+  unfold WideSelect; exact inferInstance
+
+/-- What is printed after the keyword SELECT. -/
+def selectWideText (f : Field) (fs : List Field) (tgt : Option (Str × Str × Str)) (q : Str × Str × Str)
+    (qs : List (Str × Str × Str)) (c : Option Expr) (ds : List Expr) (fill : FillOption) (fv : FillValue)
+    (sf : List SortField) (l o sl so : Int) (loc : Option Str) : Str :=
+  bodyText f fs tgt ((qualM q).print ++ moreQuals qs) c ds fill fv sf l o sl so loc
+
+/-- The pieces are what `SelectStatement.String()` writes (sort list and fill option of the class). -/
+theorem selectWide_print (tbl : List (Char × Char)) (f : Field) (fs : List Field) (tgt : Option (Str × Str × Str))
+    (q : Str × Str × Str) (qs : List (Str × Str × Str)) (c : Option Expr) (ds : List Expr) (fill : FillOption)
+    (fv : FillValue) (sf : List SortField) (l o sl so : Int) (loc : Option Str) (hsf : sortOKB sf = true)
+    (hfill : fillOKW tbl fill fv = true) :
+    (Statement.select (wideSelect f fs tgt ((q :: qs).map qualSrc) c ds fill fv sf l o sl so loc)).print =
+      tx "SELECT" ++ selectWideText f fs tgt q qs c ds fill fv sf l o sl so loc := by
+  show (wideSelect f fs tgt ((q :: qs).map qualSrc) c ds fill fv sf l o sl so loc).print = _
+  rw [wideSelect_print tbl f fs tgt _ c ds fill fv sf l o sl so loc (by simp) hsf hfill, printSources_quals]
+  rfl
+
+/-- **Print → parse, SELECT over the wide class.** `parseSelectStatement` on the text printed after the keyword
+`SELECT`, followed by `k`, returns exactly the statement and stands before `k` — or the fuel was too small.
+
+Partial — the class `WideSelect s.lowerTbl` (relative to the lower-casing table shipped with the input; for the
+empty table, or any table without ASCII entries, no condition on names is left). New against
+`selectClauses_print_parse_partial`: fields, condition and dimensions of C03's wide class — calls such as
+`mean(value)`, `now()`, number and duration literals, wildcards as fields; `GROUP BY time(5m)`,
+`time(5m, 1m)` (printed by `FormatDuration`), `*`; and `fill(none|previous|linear|<integer>|<number>)` exactly as
+the printer writes it (`NullFill` prints nothing and is read back as `NullFill`). The table is carried to the
+clauses by the frame lemma. Still excluded (all producible by the parser): subqueries (see
+`selectSub_print_parse_partial`), regex sources and regex dimensions, call names that are not fixed points of the
+table or need quotes (open finding `call-name-printed-unquoted`), the negated-operand trees of the open finding,
+non-canonical decimals, location names with a quote or backslash, empty measurement names (finding
+`empty-identifier-not-printed`), the fill value `<nil>` (never parsed). -/
+theorem selectWide_print_parse_partial (fuel : Nat) (s : PState) (f : Field) (fs : List Field)
+    (tgt : Option (Str × Str × Str)) (q : Str × Str × Str) (qs : List (Str × Str × Str))
+    (c : Option Expr) (ds : List Expr) (fill : FillOption) (fv : FillValue) (sf : List SortField) (l o sl so : Int)
+    (loc : Option Str) (k : Str)
+    (hok : WideSelect s.lowerTbl f fs tgt q qs c ds fill fv sf l o sl so loc) (hk : Follow k selectStop)
+    (hs : s.Before (selectWideText f fs tgt q qs c ds fill fv sf l o sl so loc ++ k)) :
+    wp (runHandler (fuel + 4) .parseSelectStatement_targetNotRequired) s
+      (fun st s' => st = .select (wideSelect f fs tgt ((q :: qs).map qualSrc) c ds fill fv sf l o sl so loc) ∧
+        RT.Stand s' k) (· = .fuel) := by
+  obtain ⟨hbody, hn⟩ := hok
+  simp only [runHandler, parseSelect]
+  rw [wp_bind]
+  refine wp_mono (selectBody_printW fuel (some (parseSelect (fuel + 3) false))
+    (fun p hp => by cases hp; exact parseSelect_frame _ _) s f fs tgt ((q :: qs).map qualSrc)
+    ((qualM q).print ++ moreQuals qs) c ds fill fv sf l o sl so loc k hbody ?_ hk hs) ?_ (fun _ h => h)
+  · intro s3 k' _ hk' hb
+    obtain ⟨s4, h4, st4⟩ := parseSourcesWith_quals (some (parseSelect (fuel + 3) false)) s3 q qs k' hn hk'
+      (by simpa [List.append_assoc] using hb)
+    rw [wp_of_run_ok h4]
+    exact ⟨rfl, st4⟩
+  · intro st s' ⟨hst, hs'⟩
+    rw [wp_pure, hst]
+    exact ⟨rfl, hs'⟩
+
+/-- Non-vacuity: `SELECT mean(value), *, a * 2.5 AS x INTO "my db"..tgt FROM db.rp."x.y", m WHERE time > now() - 1h
+GROUP BY time(5m, 1m), host, * fill(-5) ORDER BY time DESC LIMIT 10 SLIMIT 2 TZ('Europe/Berlin')`. -/
+def exWF1 : Field := ⟨.call "mean".toList [.varRef "value".toList .Unknown], []⟩
+def exWFs : List Field :=
+  [⟨.wildcard .ILLEGAL, []⟩, ⟨.binary .MUL (.varRef ['a'] .Unknown) (.number ⟨false, 25, 1⟩), ['x']⟩]
+def exWCond : Option Expr :=
+  some (.binary .GT (.varRef "time".toList .Unknown) (.binary .SUB (.call "now".toList []) (.duration 3600000000000)))
+def exWDims : List Expr :=
+  [.call "time".toList [.duration 300000000000, .duration 60000000000], .varRef "host".toList .Unknown, .wildcard .ILLEGAL]
+def exWideText : Str :=
+  selectWideText exWF1 exWFs exTgt exQ [([], [], ['m'])] exWCond exWDims .number (.int (-5)) exSort 10 0 2 0 exLoc
+
+example : exWideText = (" mean(value), *, a * 2.5 AS x INTO \"my db\"..tgt FROM db.rp.\"x.y\", m " ++
+    "WHERE time > now() - 1h GROUP BY time(5m, 1m), host, * fill(-5) ORDER BY time DESC LIMIT 10 SLIMIT 2 " ++
+    "TZ('Europe/Berlin')").toList := by decide +kernel
+
+example : WideSelect [] exWF1 exWFs exTgt exQ [([], [], ['m'])] exWCond exWDims .number (.int (-5)) exSort 10 0 2 0 exLoc := by
+  decide +kernel
+
+-- the other fill options; not in the class: a number fill without a value (`fill(<nil>)` is never parsed),
+-- a table that changes the word `fill`, a call name with a capital
+example : fillOKW [] .none .none = true ∧ fillOKW [] .previous .none = true ∧ fillOKW [] .linear .none = true ∧
+    fillOKW [] .null .none = true ∧ fillOKW [] .number (.num ⟨true, 15, 1⟩) = true ∧
+    fillOKW [] .number .none = false ∧ fillOKW [('f', 'g')] .none .none = false ∧
+    fillText .linear .none = " fill(linear)".toList ∧ fillText .number (.num ⟨true, 15, 1⟩) = " fill(-1.5)".toList ∧
+    RT.wOK [] (.call "Mean".toList []) = false := by
+  decide +kernel
+
+section
+attribute [local irreducible] wp
+example : wp (runHandler 204 .parseSelectStatement_targetNotRequired) (PState.init exWideText [] [])
+    (fun st s' => st = .select (wideSelect exWF1 exWFs exTgt ((exQ :: [([], [], ['m'])]).map qualSrc) exWCond exWDims .number
+      (.int (-5)) exSort 10 0 2 0 exLoc) ∧ RT.Stand s' [eofRune]) (· = .fuel) :=
+  selectWide_print_parse_partial 200 (PState.init exWideText [] []) exWF1 exWFs exTgt exQ
+    [([], [], ['m'])] exWCond exWDims .number (.int (-5)) exSort 10 0 2 0 exLoc [eofRune] (by decide +kernel)
+    (Follow.eof _ (by decide)) (init_before exWideText (by decide +kernel))
+end
+
+example : (match (runHandler 204 .parseSelectStatement_targetNotRequired).run (PState.init exWideText [] []) with
+    | .ok (.select st, _) => st.print == tx "SELECT" ++ exWideText
     | _ => false) = true := by decide +kernel
 
 /-! ## passwords -/
